@@ -26,6 +26,7 @@ import (
 	pb "github.com/jamf/regatta/regattapb"
 	"github.com/jamf/regatta/replication"
 	"github.com/jamf/regatta/storage"
+	"github.com/jamf/regatta/storage/table/fsm"
 
 	"verifharness/internal/cluster"
 	"verifharness/internal/ev"
@@ -107,13 +108,21 @@ func main() {
 			fmt.Fprintln(os.Stderr, "replay:", err)
 			os.Exit(2)
 		}
+		if w.Case.Scenario == "fsm-capture" {
+			for i := 0; i < 20 && r.Violations() == 0; i++ {
+				if why, _, err := fsmx.CaptureUnderWrites(w.Case.Seed, fsm.SnapshotRecoveryType(i%2), 1000, 2+i%3); err == nil && why != "" {
+					r.Violation("snapshot-stream-is-not-the-leader-state-at-its-declared-index", why, w)
+				}
+			}
+			r.Finish()
+		}
 		for i := 0; i < 5 && r.Violations() == 0; i++ {
 			runScenario(r, w.Case)
 		}
 		r.Finish()
 	}
-	quick := []string{"log", "snapshot", "writes-during-recovery", "worker-restart", "slow-apply", "tables", "lease-handover", "second-consumer"}
-	all := append(append([]string{}, quick...), "engine-restart", "second-consumer", "log", "snapshot", "slow-apply", "writes-during-recovery", "engine-restart")
+	quick := []string{"log", "snapshot", "writes-during-recovery", "worker-restart", "slow-apply", "tables", "lease-handover", "second-consumer", "recovery-interrupted"}
+	all := append(append([]string{}, quick...), "engine-restart", "second-consumer", "recovery-interrupted", "log", "snapshot", "slow-apply", "writes-during-recovery", "engine-restart")
 	list := quick
 	if r.Thorough() {
 		list = nil
@@ -124,6 +133,22 @@ func main() {
 	for i, sc := range list {
 		runScenario(r, caseID{sc, r.Seed*1_000_003 + int64(i)})
 	}
+	// what a recovering follower is sent: table streams taken from the leader's state machine while
+	// it applies writes back to back must be the leader's state at the index they declare (the
+	// follower records that index and resumes the log behind it)
+	for i, n := 0, r.Pick(8, 150); i < n; i++ {
+		why, st, err := fsmx.CaptureUnderWrites(r.Seed*8_000_003+int64(i), fsm.SnapshotRecoveryType(i%2), 1000, 2+i%3)
+		if err != nil {
+			r.Inconclusive("capture layer: " + err.Error())
+			continue
+		}
+		r.Count("leader_snapshot_streams_taken_under_writes", st.Captures)
+		r.Count("leader_snapshot_stream_distinct_indices", int64(st.DistinctIndices))
+		if why != "" {
+			r.Violation("snapshot-stream-is-not-the-leader-state-at-its-declared-index", "[leader state machine applying single entries back to back] "+why, witness{Case: caseID{Scenario: "fsm-capture", Seed: r.Seed*8_000_003 + int64(i)}})
+		}
+	}
+	r.FloorCount("leader_snapshot_streams_taken_under_writes", int64(r.Pick(6000, 120000)))
 	if rep := racelog.Scan(); rep != nil {
 		for sig, n := range rep.Regatta {
 			r.Note(fmt.Sprintf("race report with regatta frames (recorded, not deciding for C05): %s x%d", sig, n))
@@ -133,7 +158,8 @@ func main() {
 	r.FloorNontrivial(int64(r.Pick(60, 600)))
 	r.FloorCount("usable_samples", int64(r.Pick(300, 4000)))
 	r.FloorCount("leader_writes", int64(r.Pick(500, 6000)))
-	r.FloorCount("scenarios_converged", int64(r.Pick(6, 40)))
+	r.FloorCount("scenarios_converged", int64(r.Pick(7, 40)))
+	r.FloorCount("recoveries_interrupted_by_a_node_restart", int64(r.Pick(1, 4)))
 	r.FloorCount("second_consumer_reads_of_the_log_tail", int64(r.Pick(5, 20)))
 	r.FloorCount("snapshot_recoveries_observed", int64(r.Pick(2, 12)))
 	r.FloorCount("table_set_convergence_checks", int64(r.Pick(2, 8)))
@@ -288,7 +314,10 @@ func runScenario(r *ev.Run, id caseID) {
 	}
 	// the leader compacts its log aggressively only in the scenarios that are about snapshot recovery
 	snapEntries, overhead := uint64(0), uint64(0)
-	if id.Scenario == "snapshot" || id.Scenario == "writes-during-recovery" {
+	if id.Scenario == "recovery-interrupted" {
+		inMem = 1 << 20 // restore batches of 512 KiB: the ~900 KiB snapshot is loaded in two or more proposals
+	}
+	if id.Scenario == "snapshot" || id.Scenario == "writes-during-recovery" || id.Scenario == "recovery-interrupted" {
 		snapEntries, overhead = 20, 5
 	} else if g.Intn(3) == 0 && id.Scenario != "second-consumer" { // (a compaction empties the log cache)
 		snapEntries, overhead = 150, 100 // compaction happens, but well behind a tailing follower
@@ -302,7 +331,7 @@ func runScenario(r *ev.Run, id caseID) {
 	defer l.Close()
 	le := l.Nodes[0].Engine
 	tables := []string{"t1"}
-	if id.Scenario == "tables" || id.Scenario == "snapshot" || g.Intn(3) == 0 {
+	if id.Scenario == "tables" || id.Scenario == "snapshot" || (g.Intn(3) == 0 && id.Scenario != "recovery-interrupted") {
 		tables = append(tables, "t2")
 	}
 	for _, t := range tables {
@@ -328,7 +357,8 @@ func runScenario(r *ev.Run, id caseID) {
 		}
 	}
 	// follower-side apply stall (slow-apply scenario)
-	var stall atomic.Int64 // milliseconds to stall the next apply calls
+	var t1Applies atomic.Int64 // apply calls of the follower's t1 replicas (incl. recovery shards) that carried an index
+	var stall atomic.Int64     // milliseconds to stall the next apply calls
 	fNodes := 1
 	var stallNode atomic.Int64 // 0 = every node
 	if id.Scenario == "lease-handover" {
@@ -337,6 +367,9 @@ func runScenario(r *ev.Run, id caseID) {
 	fo := cluster.FollowerOpts{
 		Opts: cluster.Opts{Nodes: fNodes, MaxInMemLogSize: inMem},
 		Hook: func(node uint64, table string, rev uint64) {
+			if table == "t1" && rev > 0 {
+				t1Applies.Add(1)
+			}
 			if ms := stall.Load(); ms > 0 && (stallNode.Load() == 0 || stallNode.Load() == int64(node)) {
 				time.Sleep(time.Duration(ms) * time.Millisecond)
 			}
@@ -347,10 +380,26 @@ func runScenario(r *ev.Run, id caseID) {
 	}
 	preWrites := 0
 	switch id.Scenario {
-	case "snapshot", "writes-during-recovery":
+	case "snapshot", "writes-during-recovery", "recovery-interrupted":
 		// the leader log is compacted before the follower exists
 		startWriters(2, 90)
 		wg.Wait()
+		if id.Scenario == "recovery-interrupted" && !lg.failed.Load() {
+			// bulk content: the snapshot needs several restore proposals on the follower
+			for i := 0; i < 300 && !lg.failed.Load(); i++ {
+				ctx, cancel := context.WithTimeout(context.Background(), 10*time.Second)
+				k, v := fmt.Sprintf("bulk-%04d", i), append([]byte(fmt.Sprintf("bulk-%d|", i)), make([]byte, 3000)...)
+				if resp, err := le.Put(ctx, &pb.PutRequest{Table: []byte("t1"), Key: []byte(k), Value: v}); err == nil {
+					cmd := &pb.Command{Table: []byte("t1"), Type: pb.Command_PUT, Kv: &pb.KeyValue{Key: []byte(k), Value: v}}
+					lg.add("t1", write{rev: resp.Header.Revision, cmd: cmd, desc: fmt.Sprintf("%d:%s", resp.Header.Revision, gen.Describe(cmd))})
+				} else {
+					lg.failed.Store(true)
+					lg.why.Store(err.Error())
+				}
+				cancel()
+			}
+			stall.Store(400) // the follower applies slowly: its first restore proposal is applied, the load goes on
+		}
 		preWrites = 1
 		if lg.failed.Load() {
 			r.Inconclusive("leader write failed: " + fmt.Sprint(lg.why.Load()))
@@ -609,6 +658,45 @@ func runScenario(r *ev.Run, id caseID) {
 			time.Sleep(time.Duration(200+g.Intn(200)) * time.Millisecond)
 		}
 		stop.Store(true)
+		wg.Wait()
+	case "recovery-interrupted":
+		// the follower node goes down while it loads the leader's snapshot (after the first restore
+		// proposals were applied); while it is down the leader deletes pairs that were already
+		// loaded; the node comes back and recovers again
+		for i := 0; i < 400 && t1Applies.Load() == 0; i++ {
+			time.Sleep(25 * time.Millisecond)
+		}
+		if t1Applies.Load() == 0 {
+			finishSampler()
+			r.Inconclusive("[recovery-interrupted] the follower did not apply a restore proposal within 10 s")
+			return
+		}
+		// the first restore proposal is being applied (stalled 400 ms); the next one follows
+		time.Sleep(time.Duration(450+g.Intn(200)) * time.Millisecond)
+		if li, err := leaderIndex(fe(), "t1"); err == nil && li > 0 {
+			r.Count("recoveries_that_completed_before_the_interruption(not the case aimed at)", 1)
+		} else {
+			r.Count("recoveries_interrupted_by_a_node_restart", 1)
+		}
+		err := f.CrashEngineWith(0, func() {
+			stall.Store(0)
+			ctx, cancel := context.WithTimeout(context.Background(), 10*time.Second)
+			defer cancel()
+			if resp, err := le.Delete(ctx, &pb.DeleteRangeRequest{Table: []byte("t1"), Key: []byte("bulk-0000"), RangeEnd: []byte("bulk-0100")}); err == nil {
+				cmd := &pb.Command{Table: []byte("t1"), Type: pb.Command_DELETE, Kv: &pb.KeyValue{Key: []byte("bulk-0000")}, RangeEnd: []byte("bulk-0100")}
+				lg.add("t1", write{rev: resp.Header.Revision, cmd: cmd, desc: fmt.Sprintf("%d:%s", resp.Header.Revision, gen.Describe(cmd))})
+			} else {
+				lg.failed.Store(true)
+				lg.why.Store(err.Error())
+			}
+		})
+		if err != nil {
+			finishSampler()
+			r.Inconclusive("engine restart: " + err.Error())
+			return
+		}
+		r.Count("engine_restarts", 1)
+		startWriters(1, 25)
 		wg.Wait()
 	case "second-consumer":
 		// A second consumer of the same leader node (another follower cluster that is nearly caught
